@@ -3,7 +3,8 @@ package main
 // Suite c13 — rolling back a commit restores the checkpoint exactly (op language and oracles: wmptrun.go).
 //
 // build; commit; [gc]; saveroot <copy level>; changes (new keys, changed values, unchanged re-writes, delete and
-// re-add of identical content, deletes); commit <lvl>; [one gc]; rollback | rollbacktrie; then the checkpoint root,
+// re-add of identical content, deletes); commit <lvl> (also: followed by a second, clean commit; or Commit called twice
+// before the first batch is committed); [one gc]; rollback | rollbacktrie; then the checkpoint root,
 // weight, every owner/value/proof on a reopened trie, and the absence of every storage key that only the rolled-back
 // commit wrote are checked by the runner. Afterwards the history continues (reads, further changes, commit, GC).
 
@@ -47,7 +48,15 @@ func genC13(r *rand.Rand, tier string, idx int) []string {
 		for k := 0; k < nc; k++ {
 			g.mutate()
 		}
-		g.emit("commit %d", r.Intn(8)-1)
+		switch lvl := r.Intn(8) - 1; r.Intn(4) {
+		case 0:
+			g.emit("commit2 %d", lvl) // Commit twice before the first batch is committed (the second has nothing to write)
+		case 1:
+			g.emit("commit %d", lvl)
+			g.emit("commit %d", r.Intn(8)-1) // a periodic flush with nothing to write: the rollback below still undoes the real commit
+		default:
+			g.emit("commit %d", lvl)
+		}
 		if r.Intn(3) == 0 {
 			g.emit("gc")
 		}
